@@ -164,3 +164,10 @@ def kida_line(r: AReac, formula=3):
     ps = "".join(f"{x:<11}" for x in pr_ + [""] * (5 - len(pr_)))
     return (f"{rs} {ps} {r.alpha:10.3e} {r.beta:10.3e} {r.gamma:10.3e} 2.00e+00 0.00e+00 logn  1 "
             f"{int(r.tmin):>6d} {int(r.tmax):>6d} {formula:>2d} {r.idx:>5d} 1  1")
+
+
+def leeds_line(idx, re_, pr_, a=1e-10, b=0.0, c=0.0, lt=5, ht=41000, rtype=1):
+    """own encoder of the Leeds (Walsh et al.) fixed-width format: 5 + 30 + 50 + 8 + 9 + 10 + 5 + 5 + 3 columns"""
+    rs = "".join(f"{x:<10}" for x in list(re_) + [""] * (3 - len(re_)))
+    ps = "".join(f"{x:<10}" for x in list(pr_) + [""] * (5 - len(pr_)))
+    return f"{idx:<5d}{rs}{ps}{a:8.2E}{b:9.2f}{c:10.1f}{lt:5d}{ht:5d}{rtype:3d}"
